@@ -336,7 +336,7 @@ impl Engine for C20Engine {
         let op = (0u8..4, proptest::sample::select(codes), any::<u8>(), prop_oneof![6 => 0u8..128, 2 => 128u8..224, 1 => 224u8..248], any::<u8>()).prop_map(|(a, c, x, y, z)| [a, c, x, y, z]);
         let header = (0u8..5, any::<u8>(), prop_oneof![3 => 0u8..128, 1 => 128u8..224], any::<u8>(), 0u8..3, any::<u8>(), any::<u8>(), 0u8..16)
             .prop_map(|(m, ctor, c1, c2, pl, p1, p2, plan)| [m, ctor, c1, c2, pl, if plan < 3 { 10 + (p1 % 6) } else { 0 }, p1, p2]);
-        let cross = proptest::collection::vec((0u8..10, 0u8..4, 0u8..4, any::<u8>()), 1..50).prop_map(|ops| {
+        let cross = proptest::collection::vec((0u8..13, 0u8..4, 0u8..4, any::<u8>()), 1..50).prop_map(|ops| {
             let mut v = vec![0x40u8];
             for (c, i, j, x) in ops {
                 v.extend_from_slice(&[c, i, j, x]);
@@ -509,7 +509,7 @@ impl Engine for C20Engine {
     fn describe(&self, bytes: &[u8]) -> Value {
         if bytes.first().map_or(false, |b| b & 0x40 != 0) {
             return json!({"family": "collections of two arenas operated on together (vectors 0,1 live in arena A, vectors 2,3 in arena B)",
-                "ops": bytes.get(1..).unwrap_or(&[]).chunks(4).map(|c| format!("{}(vec {}, vec {}, {})", CROSS_OPS[(c[0] % 10) as usize], c.get(1).cloned().unwrap_or(0) % 4, c.get(2).cloned().unwrap_or(0) % 4, c.get(3).cloned().unwrap_or(0))).collect::<Vec<_>>()});
+                "ops": bytes.get(1..).unwrap_or(&[]).chunks(4).map(|c| format!("{}(vec {}, vec {}, {})", CROSS_OPS[(c[0] % 13) as usize], c.get(1).cloned().unwrap_or(0) % 4, c.get(2).cloned().unwrap_or(0) % 4, c.get(3).cloned().unwrap_or(0))).collect::<Vec<_>>()});
         }
         let case = decode_multi(bytes);
         json!({
@@ -746,7 +746,10 @@ pub fn tsan_part(tier: Tier) -> SweepOut {
 // ---------------------------------------------------------------------------------------------
 // C20, collections family: vectors living in two different arenas operated on together
 
-pub const CROSS_OPS: [&str; 10] = ["push", "extend_from_slice", "append", "split_off_into", "clone_into", "drain", "reserve", "shrink_to_fit", "truncate", "insert"];
+pub const CROSS_OPS: [&str; 13] = [
+    "push", "extend_from_slice", "append", "split_off_into", "clone_into", "drain", "reserve", "shrink_to_fit", "truncate", "insert",
+    "into_iter sent to and finished on another thread", "Drain sent to and dropped on another thread", "Box sent to and dropped on another thread",
+];
 
 pub fn run_cross_arena(bytes: &[u8]) -> (Vec<String>, u32) {
     use bumpalo::collections::Vec as BVec;
@@ -770,11 +773,16 @@ pub fn run_cross_arena(bytes: &[u8]) -> (Vec<String>, u32) {
         let obs = |x: &Bump| (x.allocated_bytes(), x.chunk_capacity());
         for ch in bytes.get(1..).unwrap_or(&[]).chunks(4) {
             let g = |i: usize| ch.get(i).cloned().unwrap_or(0);
-            let (code, i, j, x) = (g(0) % 10, (g(1) % 4) as usize, (g(2) % 4) as usize, g(3));
+            let (code, i, j, x) = (g(0) % 13, (g(1) % 4) as usize, (g(2) % 4) as usize, g(3));
             let before = [obs(&a), obs(&b)];
             // which arenas may legitimately change: the owners of the vectors that are written
             let mut may_change = [false, false];
             may_change[owner[i]] = true;
+            if code >= 10 {
+                // IntoIter, Drain and Box are Send (for Send elements) although the arena is not Sync: finishing them on
+                // another thread is only sound if that never touches the arena, so no arena may change at all
+                may_change = [false, false];
+            }
             let len = t[i].len();
             let r = {
                 let _g = ledger::enter_arena(1);
@@ -821,7 +829,62 @@ pub fn run_cross_arena(bytes: &[u8]) -> (Vec<String>, u32) {
                     6 => s[i].reserve(x as usize),
                     7 => s[i].shrink_to_fit(),
                     8 => s[i].truncate((x as usize * (len + 1)) >> 8),
-                    _ => s[i].insert((x as usize * (len + 1)) >> 8, 7),
+                    9 => s[i].insert((x as usize * (len + 1)) >> 8, 7),
+                    10 => {
+                        let v = std::mem::replace(&mut s[i], BVec::new_in(arenas[owner[i]]));
+                        let mut it = v.into_iter();
+                        let here = (x % 3) as usize;
+                        let mut sum = 0u64;
+                        for _ in 0..here {
+                            sum += it.next().unwrap_or(0) as u64;
+                        }
+                        let _u = ledger::enter_user();
+                        let rest: u64 = std::thread::scope(|sc| {
+                            sc.spawn(move || {
+                                let mut r = 0u64;
+                                if x & 4 != 0 {
+                                    r += it.next_back().unwrap_or(0) as u64;
+                                }
+                                if x & 8 != 0 {
+                                    for y in it {
+                                        r += y as u64;
+                                    }
+                                } // else: dropped unfinished
+                                r
+                            })
+                            .join()
+                            .unwrap()
+                        });
+                        let _ = sum + rest;
+                    }
+                    11 => {
+                        let lo = (x as usize * (len + 1)) >> 8;
+                        let d = s[i].drain(lo..);
+                        let _u = ledger::enter_user();
+                        std::thread::scope(|sc| {
+                            sc.spawn(move || {
+                                let mut d = d;
+                                if x & 1 != 0 {
+                                    let _ = d.next();
+                                }
+                                drop(d);
+                            })
+                            .join()
+                            .unwrap()
+                        });
+                    }
+                    _ => {
+                        let bx = bumpalo::boxed::Box::new_in(x as u64, arenas[owner[i]]);
+                        // creating the box is an allocation in its arena; only what the other thread does must be neutral
+                        let mid = [obs(&a), obs(&b)];
+                        let _u = ledger::enter_user();
+                        std::thread::scope(|sc| {
+                            sc.spawn(move || drop(bx)).join().unwrap();
+                        });
+                        if [obs(&a), obs(&b)] != mid {
+                            panic!("dropping a Box on another thread changed an arena");
+                        }
+                    }
                 }))
             };
             if r.is_err() {
@@ -859,7 +922,10 @@ pub fn run_cross_arena(bytes: &[u8]) -> (Vec<String>, u32) {
                 }
                 6 | 7 => {}
                 8 => t[i].truncate((x as usize * (len + 1)) >> 8),
-                _ => t[i].insert((x as usize * (len + 1)) >> 8, 7),
+                9 => t[i].insert((x as usize * (len + 1)) >> 8, 7),
+                10 => t[i].clear(),
+                11 => t[i].truncate((x as usize * (len + 1)) >> 8),
+                _ => may_change[owner[i]] = true,
             }
             let after = [obs(&a), obs(&b)];
             for z in 0..2 {
